@@ -61,9 +61,12 @@ PROP = dict(
     contract_modules=["contracts.models"],
     spec_modules=["contracts.models"],
     functions=[dict(fn=M + f, **({"contract_key": f"{M}{f}:{v}"} if v else {}), rt_skip=True) for f, v in V] + [
-        dict(fn="contracts.models.roundtrip_json", rt_skip=True),
-        dict(fn="contracts.models.roundtrip_self", rt_skip=True),
+        dict(fn="contracts.models.roundtrip_json"),
+        dict(fn="contracts.models.roundtrip_self"),
     ],
+    scope={"grid": 40, "durs": [0, 1, 2, 3, 1000, 86400000], "subms": [0, 0, 1, 499, 999], "tzmins": [0, 0, 60, 330, -480, 840, -720],
+           "ids": [None, 0, 7], "data": [{}, {"a": 1}, {"t": "\u00fc\"'", "l": [1, {"x": None}], "f": 1.5}]},
+    crosscheck_budget=400,
     extra=[lemma_f1],
     timeout_s=20,
     trusted=["A-ISO: iso8601.parse_date returns the aware datetime the ISO-8601 text denotes (whole-minute offset)",
